@@ -85,6 +85,45 @@ type Run struct {
 	sum     Summary
 	start   time.Time
 	maxFail int
+	evalIn  string
+	flush   bool
+}
+
+// Pending writes the operation line *before* the real code runs (only in flush mode, which the
+// check uses to re-run a crashed harness): if the process dies inside the real code the last line
+// of ops.txt is the operation that killed it.
+func (r *Run) Pending(op string) {
+	if r.flush {
+		r.ops.WriteString("#pending " + strings.ReplaceAll(op, "\n", "\\n") + "\n")
+		r.ops.Flush()
+	}
+}
+
+// EvalTerms: when the harness was started with -evalterms <file>, rewrite every line of <file>
+// with f (which evaluates the hash terms the model printed, using the node's own hasher) into
+// <file>.eval and exit. Must be called right after Start.
+func (r *Run) EvalTerms(f func(line string) string) {
+	if r.evalIn == "" {
+		return
+	}
+	in, err := os.Open(r.evalIn)
+	if err != nil {
+		panic(err)
+	}
+	out, err := os.Create(r.evalIn + ".eval")
+	if err != nil {
+		panic(err)
+	}
+	w := bufio.NewWriterSize(out, 1<<20)
+	sc := bufio.NewScanner(in)
+	sc.Buffer(make([]byte, 1<<20), 1<<28)
+	for sc.Scan() {
+		w.WriteString(f(sc.Text()))
+		w.WriteByte('\n')
+	}
+	w.Flush()
+	out.Close()
+	os.Exit(0)
 }
 
 func Start(name, rule string) *Run {
@@ -92,7 +131,11 @@ func Start(name, rule string) *Run {
 	tier := flag.String("tier", "quick", "quick|thorough")
 	out := flag.String("out", "", "output directory")
 	replay := flag.String("replay", "", "replay file (ops to re-run instead of generating)")
+	evalIn := flag.String("evalterms", "", "evaluate the hash terms in this model output file (written to <file>.eval) and exit")
 	flag.Parse()
+	if *evalIn != "" {
+		return &Run{evalIn: *evalIn, Rng: NewRng(0)}
+	}
 	if *out == "" {
 		fmt.Fprintln(os.Stderr, "need -out")
 		os.Exit(2)
@@ -109,6 +152,7 @@ func Start(name, rule string) *Run {
 	}
 	r.ops = bufio.NewWriterSize(r.fo, 1<<20)
 	r.impl = bufio.NewWriterSize(r.fi, 1<<20)
+	r.flush = os.Getenv("VERIF_FLUSH") != ""
 	r.sum = Summary{Harness: name, Seed: *seed, Tier: *tier, Rule: rule, Dist: map[string]int{}}
 	return r
 }
@@ -132,6 +176,10 @@ func (r *Run) Op(op, out string, nontrivial bool) {
 	r.ops.WriteByte('\n')
 	r.impl.WriteString(out)
 	r.impl.WriteByte('\n')
+	if r.flush {
+		r.ops.Flush()
+		r.impl.Flush()
+	}
 	r.sum.Evaluations++
 	if nontrivial {
 		h := sha256.Sum256([]byte(op + "\x00" + out))
